@@ -83,4 +83,91 @@ IterAsg(st, m, asg, k) == IF k = 0 THEN asg ELSE IterAsg(st, m, NextAsg(st, m, a
 \* inside the domain of the simulators: known kinds, gates drive only output pin 0
 InDomain(st) == \A n \in 0..(NNodes(st) - 1) :
                    n \in SSet(st) \/ NodeOf(st, n).kind = FORK \/ Fam(NodeOf(st, n).kind) # "?"
+
+(***************************************************************************)
+(* Transparent / hierarchical meaning, used where the NETLIST ITSELF is    *)
+(* the object (C10, C11, C19) rather than the simulators' interface cut:   *)
+(*  - sources are the input ports (ports whose pin 0 is not connected) and *)
+(*    the state elements; a port that has a driver is an ordinary signal;  *)
+(*  - observed are the ports that have a driver (value at their pin 0) and *)
+(*    the next-state inputs (pin 0) of the state elements;                 *)
+(*  - a node whose kind is a field of `lib` is an INSTANCE of the cell     *)
+(*    implementation lib[kind] (a structure made of primitives only): its  *)
+(*    input pin j feeds the j-th input port of the implementation, its     *)
+(*    output pin k carries the k-th driven port; unconnected instance      *)
+(*    pins read 0.  An implementation containing a flip-flop or latch      *)
+(*    makes the instance a state element of the host.                      *)
+(***************************************************************************)
+HasIn0(nd) == Len(nd.ins) > 0 /\ nd.ins[1] >= 0
+InPorts(st) == SelectSeq(st.io, LAMBDA n : ~HasIn0(NodeOf(st, n)))
+OutPorts(st) == SelectSeq(st.io, LAMBDA n : HasIn0(NodeOf(st, n)))
+SeqNodes(st) == FFs(st) \o Latches(st)
+\* flat transparent evaluation: srcv = values of InPorts(st) \o SeqNodes(st), in that order
+FlatSources(st) == InPorts(st) \o SeqNodes(st)
+EvalT(st, srcv) ==
+  LET nl == NLinesOf(st)
+      src == FlatSources(st)
+      srcset == {src[i] : i \in 1..Len(src)}
+      idx(n) == CHOOSE i \in 1..Len(src) : src[i] = n
+      step(v, n) ==
+        LET nd == NodeOf(st, n)
+            isS == n \in srcset
+            passive == nd.kind \in {FORK, "input", "output"} \/ n \in IoSet(st)      \* named signals and port cells copy pin 0
+            base == IF isS THEN srcv[idx(n)]
+                    ELSE IF passive THEN PinVal(nd, 0, v)
+                    ELSE GateVal(2, nd, v)
+            put(vv, k) == IF nd.outs[k] >= 0 /\ (isS \/ passive \/ k = 1)
+                          THEN [vv EXCEPT ![nd.outs[k] + 1] = IF isS /\ IsFF(st, n) /\ k = 2 THEN 1 - base ELSE base]
+                          ELSE vv
+        IN FoldLeft(put, v, [k \in 1..Len(nd.outs) |-> k])
+  IN FoldLeft(step, [i \in 1..nl |-> 0], st.topo)
+\* observed values: driven ports, then next-state inputs of the state elements
+ObsT(st, v) == [i \in 1..Len(OutPorts(st)) |-> v[NodeOf(st, OutPorts(st)[i]).ins[1] + 1]]
+               \o [i \in 1..Len(SeqNodes(st)) |-> LET nd == NodeOf(st, SeqNodes(st)[i]) IN IF HasIn0(nd) THEN v[nd.ins[1] + 1] ELSE 0]
+\* a cell implementation as a function: inputs by pin, state q -> <<outputs by pin>> and next state
+CellSeq(impl) == Len(SeqNodes(impl)) > 0
+CellV(impl, inv, q) == EvalT(impl, [i \in 1..Len(FlatSources(impl)) |->
+                                     IF i <= Len(InPorts(impl)) THEN (IF i <= Len(inv) THEN inv[i] ELSE 0) ELSE q])
+CellOuts(impl, inv, q) == LET v == CellV(impl, inv, q) IN
+                          [k \in 1..Len(OutPorts(impl)) |-> v[NodeOf(impl, OutPorts(impl)[k]).ins[1] + 1]]
+CellNext(impl, inv, q) == LET v == CellV(impl, inv, q)
+                              nd == NodeOf(impl, SeqNodes(impl)[1]) IN IF HasIn0(nd) THEN v[nd.ins[1] + 1] ELSE 0
+\* hierarchical transparent evaluation of a host with instances of lib cells
+IsInst(lib, nd) == nd.kind \in DOMAIN lib
+InstSeq(st, lib) == SelectSeq([i \in 1..NNodes(st) |-> i - 1], LAMBDA n : IsInst(lib, NodeOf(st, n)) /\ CellSeq(lib[NodeOf(st, n).kind]))
+\* state elements of the host in interface order: flip-flop-like first, then latch-like (plain nodes and instances, node order)
+SeqKind(st, lib, n) == LET nd == NodeOf(st, n) IN
+                       IF IsInst(lib, nd) THEN (IF Len(FFs(lib[nd.kind])) > 0 THEN 1 ELSE IF Len(Latches(lib[nd.kind])) > 0 THEN 2 ELSE 0)
+                       ELSE st.seq[n + 1]
+HSeq(st, lib) == SelectSeq([i \in 1..NNodes(st) |-> i - 1], LAMBDA n : SeqKind(st, lib, n) = 1)
+                 \o SelectSeq([i \in 1..NNodes(st) |-> i - 1], LAMBDA n : SeqKind(st, lib, n) = 2)
+HSources(st, lib) == InPorts(st) \o HSeq(st, lib)
+InstIn(nd, v) == [j \in 1..Len(nd.ins) |-> IF nd.ins[j] >= 0 THEN v[nd.ins[j] + 1] ELSE 0]
+EvalH(st, lib, srcv) ==
+  LET nl == NLinesOf(st)
+      src == HSources(st, lib)
+      srcset == {src[i] : i \in 1..Len(src)}
+      idx(n) == CHOOSE i \in 1..Len(src) : src[i] = n
+      step(v, n) ==
+        LET nd == NodeOf(st, n)
+            isS == n \in srcset
+            inst == IsInst(lib, nd)
+            passive == nd.kind \in {FORK, "input", "output"} \/ n \in IoSet(st)
+            q == IF isS THEN srcv[idx(n)] ELSE 0
+            outs == IF inst THEN CellOuts(lib[nd.kind], InstIn(nd, v), q) ELSE <<>>
+            base == IF inst THEN 0 ELSE IF isS THEN q ELSE IF passive THEN PinVal(nd, 0, v) ELSE GateVal(2, nd, v)
+            put(vv, k) == IF nd.outs[k] < 0 THEN vv
+                          ELSE IF inst THEN [vv EXCEPT ![nd.outs[k] + 1] = IF k <= Len(outs) THEN outs[k] ELSE 0]
+                          ELSE IF isS \/ passive \/ k = 1
+                          THEN [vv EXCEPT ![nd.outs[k] + 1] = IF isS /\ st.seq[n + 1] = 1 /\ k = 2 THEN 1 - base ELSE base]
+                          ELSE vv
+        IN FoldLeft(put, v, [k \in 1..Len(nd.outs) |-> k])
+  IN FoldLeft(step, [i \in 1..nl |-> 0], st.topo)
+ObsH(st, lib, srcv, v) ==
+   [i \in 1..Len(OutPorts(st)) |-> v[NodeOf(st, OutPorts(st)[i]).ins[1] + 1]]
+   \o [i \in 1..Len(HSeq(st, lib)) |->
+         LET n == HSeq(st, lib)[i]  nd == NodeOf(st, n) IN
+         IF IsInst(lib, nd) THEN CellNext(lib[nd.kind], InstIn(nd, v), srcv[Len(InPorts(st)) + i])
+         ELSE IF HasIn0(nd) THEN v[nd.ins[1] + 1] ELSE 0]
+NameOf(st, n) == NodeOf(st, n).name
 =============================================================================
